@@ -191,8 +191,8 @@ Proof.
   - destruct (ofold (qlc_item fresh (S n) b) body ([], [])) as [[its kc]|] eqn:E; [|discriminate]. intros [= <-].
     destruct (cofold_walk body IH _ _ _ _ E) as [R O]. unfold run in R. cbn [fst snd] in R. simpl in R.
     split; [|apply Forall_rep_list; exact O].
-    unfold run. cbn [fst snd]. rewrite !flat_map_app, flat_map_exec_rep. cbn [flat_map exec_item].
-    rewrite flat_map_app. cbn [flat_map exec_item]. rewrite !app_nil_r, R.
+    unfold run. cbn [fst snd]. rewrite app_nil_r, flat_map_app. cbn [flat_map exec_item].
+    rewrite flat_map_exec_rep. cbn [exec_item]. rewrite flat_map_app. cbn [flat_map exec_item]. rewrite app_nil_r, R.
     unfold expand. rewrite flat_map_rep_list. now rewrite <- !app_assoc.
 Qed.
 
@@ -285,7 +285,7 @@ Proof.
   unfold ql_export. destruct (ofold (ql_item 0 (base_of t cid)) t ([], [])) as [[its kc]|] eqn:E; [|discriminate].
   intros [= <-]. assert (A : Forall nwalk_ok t) by (apply Forall_forall; intros i _; apply nwalk_item).
   pose proof (nofold_walk t A _ _ _ _ E) as R. cbn [fst] in R. simpl in R.
-  unfold skel_prog, sk_prog, base_of. cbn [fst snd]. rewrite map_app, R. simpl. rewrite !key_kinds. reflexivity.
+  unfold skel_prog, sk_prog. unfold base_of in *. cbn [fst snd]. rewrite map_app, R. simpl. rewrite !key_kinds. reflexivity.
 Qed.
 
 Section Render.
@@ -313,7 +313,8 @@ Theorem openql_names_deterministic t1 t2 cid p1 p2 :
   render_names p1 = render_names p2.
 Proof.
   intros K H1 H2. apply openql_names_lemma in H1. apply openql_names_lemma in H2. rewrite K in H1.
-  unfold render_names. unfold skel_prog in *. rewrite H1 in H2. inversion H2 as [[E1 E2]]. now rewrite E1, E2.
+  assert (E : skel_prog p1 = skel_prog p2) by congruence. unfold skel_prog in E. inversion E as [[E1 E2]].
+  unfold render_names. now rewrite E1, E2.
 Qed.
 
 (* the top-level names need only the class-NAME sequence of the decomposed listing *)
